@@ -96,6 +96,9 @@ fn gen_predx(rng: &mut Rng, depth: u32, cols: &[J]) -> J {
             0..=4 => { let op = *rng.pick(&["gt", "ge", "lt", "le", "eq"]); let lit = json!(["val", gen_lit_for(rng, &cols[i])]); if rng.chance(1, 3) { json!([op, lit, ["col", i]]) } else { json!([op, ["col", i], lit]) } }
             5 | 6 => { let j = rng.below(cols.len() as u64) as usize; let op = *rng.pick(&["gt", "ge", "lt", "le", "eq"]); json!([op, ["col", i], ["col", j]]) }
             7 => { let n = 1 + rng.below(3); json!(["in", ["col", i], (0..n).map(|_| gen_lit_for(rng, &cols[i])).collect::<Vec<_>>()]) }
+            // a test compared with a boolean literal, in either order: (a > 5) = FALSE holds where the test does not
+            7 if rng.chance(1, 3) => { let op = *rng.pick(&["gt", "le", "eq"]); let inner = if rng.chance(1, 3) { let n = 1 + rng.below(3); json!(["in", ["col", i], (0..n).map(|_| gen_lit_for(rng, &cols[i])).collect::<Vec<_>>()]) } else { json!([op, ["col", i], ["val", gen_lit_for(rng, &cols[i])]]) };
+                                       json!(["eqbool", inner, rng.chance(1, 2), rng.chance(1, 2)]) }
             8 if rng.chance(1, 2) => json!(["plusgt", ["col", i], ["val", gen_lit_for(rng, &cols[i])]]),   // (col + 1) > lit : unsupported shape
             // a function of a numeric column (one-to-one or not) tested against a list or a bound: whatever the filter narrows, it may not
             // narrow the column as if the function were not there
@@ -129,6 +132,7 @@ fn predx_expr(p: &J) -> Expr {
         "eq" => Expr::eq(opndx(&p[1]), opndx(&p[2])),
         "in" => Expr::in_list(opndx(&p[1]), Expr::list(p[2].as_array().unwrap().iter().map(val_of).collect::<Vec<Value>>())),
         "plusgt" => Expr::gt(Expr::plus(opndx(&p[1]), Expr::val(1)), opndx(&p[2])),
+        "eqbool" => { let (t, b) = (predx_expr(&p[1]), Expr::val(p[2].as_bool().unwrap())); if p[3] == true { Expr::eq(b, t) } else { Expr::eq(t, b) } }
         "fnin" => Expr::in_list(wrapx(p[1].as_str().unwrap(), opndx(&p[2])), Expr::list(p[3].as_array().unwrap().iter().map(val_of).collect::<Vec<Value>>())),
         "fncmp" => { let l = wrapx(p[1].as_str().unwrap(), opndx(&p[3])); let r = opndx(&p[4]); match p[2].as_str().unwrap() { "gt" => Expr::gt(l, r), "le" => Expr::lt_eq(l, r), _ => Expr::eq(l, r) } }
         "boolcol" => opndx(&p[1]),
